@@ -10,6 +10,7 @@ package main
 //   2003 (sel value)            generic runtime vs VT codec, both directions
 //   2004 (mode packets lens)    util.NewProtoStream SendMsg*, then RecvMsg* over a fragmenting reader
 //   2005 ((size seed)..)        fsutil.VerifBuffer
+//   2006 (mode (stat..) [cut])  listing records (LE length + VT bytes) through the real buffer, parsed back (c20_listing.go)
 // Harness-detected anomalies are encoded as output values no model can produce:
 //   (#ffff msg) panic, (#fffe) hang, (#fffd what ..) aliasing / pooled-decode mismatch.
 
@@ -916,6 +917,9 @@ func genC20(g *Gen) {
 		}
 		g.Emit(0x2005, L(recs...), len(recs) >= 2, cls)
 	}
+
+	// ---- (6) listing file format (c20_listing.go)
+	c20GenListing(g)
 
 	// ---- supporting test (not a theorem): allocation of UnmarshalVT on adversarial input
 	g.Note("alloc_probe", allocProbe())
